@@ -1975,7 +1975,7 @@ impl<'t, 'd> Gen<'t, 'd> {
                 Bias::General => [5, 5, 6, 4, 4, 4, 2, 4, 2, 1, 1],
                 Bias::Sort => [4, 4, 5, 8, 7, 3, 1, 2, 1, 0, 1],
                 Bias::Window => [3, 6, 4, 6, 2, 2, 1, 6, 6, 0, 0],
-                Bias::Frame => [7, 6, 3, 3, 3, 5, 2, 4, 2, 1, 3],
+                Bias::Frame => [7, 6, 3, 3, 3, 5, 2, 4, 2, 4, 3],
             };
             let mut w = w;
             if !ord.ordered {
